@@ -184,6 +184,7 @@ def cvc5_check(solver, timeout_ms):
 
 _OBLS = []      # obligations of the unit being discharged (inherited by forked workers)
 _TIMEOUT = 20000
+_FAILED = None  # shared dict label -> number of non-proved VCs (early termination per obligation)
 
 
 def _discharge_idx(i):
@@ -191,7 +192,15 @@ def _discharge_idx(i):
     if ob.info.get("kind") == "cover":
         d = discharge(ob, 2000, use_cvc5=False, want_candidate=False)
         return {"i": i, "label": ob.label, "status": d["status"], "backend": d["backend"], "seconds": d["seconds"], "kind": "cover"}
+    if _FAILED is not None and _FAILED.get(ob.label, 0) >= 2:
+        return {"i": i, "label": ob.label, "status": "skipped", "backend": "skipped", "seconds": 0.0,
+                "kind": ob.info.get("kind", "post"), "fail": None}
     d = discharge(ob, _TIMEOUT)
+    if d["status"] != "proved" and _FAILED is not None:
+        try:
+            _FAILED[ob.label] = _FAILED.get(ob.label, 0) + 1
+        except Exception:
+            pass
     out = {"i": i, "label": ob.label, "status": d["status"], "backend": d["backend"], "seconds": d["seconds"],
            "kind": ob.info.get("kind", "post")}
     if d["status"] != "proved":
@@ -213,7 +222,7 @@ def _discharge_idx(i):
 
 
 def run_unit(args):
-    global _OBLS, _TIMEOUT
+    global _OBLS, _TIMEOUT, _FAILED
     modpath, idx, tier, jobs = args
     t0 = time.time()
     res = {"unit": None, "functions": [], "paths": 0, "obligations": {}, "covers": {}, "error": None,
@@ -260,8 +269,11 @@ def run_unit(args):
             if jobs > 1 and len(hard) > 1:
                 import multiprocessing as mp
                 ctx = mp.get_context("fork")
-                with ctx.Pool(min(jobs, len(hard))) as pool:
-                    results += pool.map(_discharge_idx, hard, chunksize=1)
+                with ctx.Manager() as mgr:
+                    _FAILED = mgr.dict()
+                    with ctx.Pool(min(jobs, len(hard))) as pool:
+                        results += pool.map(_discharge_idx, hard, chunksize=1)
+                    _FAILED = None
             else:
                 results += [_discharge_idx(i) for i in hard]
         for d in results:
@@ -278,6 +290,8 @@ def run_unit(args):
             o["backends"][d["backend"]] = o["backends"].get(d["backend"], 0) + 1
             if d["status"] == "proved":
                 o["proved"] += 1
+            elif d["status"] == "skipped":
+                o["skipped"] = o.get("skipped", 0) + 1
             elif len(o["failures"]) < 6:
                 o["failures"].append(d["fail"])
             else:
